@@ -28,11 +28,12 @@ Inductive trait :=
 | PyAttr.                                          (* not declared: HasTraits' wildcard Python attribute
                                                       (never in a class table; only [walk] produces it) *)
 
-Record cls := mkC { c_prefix : name; c_traits : list (name * trait) }.
+(* c_unlisten: the deferring names declared with listenable=False (no forwarding listener, has_traits.py l.494-499) *)
+Record cls := mkC { c_prefix : name; c_traits : list (name * trait); c_unlisten : list name }.
 Record obj := mkO { o_cls : nat; o_dict : list (name * value) }.
 Record state := mkS { classes : list cls; objs : list obj; ltab : list (oid * name) }.
 
-Inductive exn := TraitError | AttributeError | DelegationError | RecursionError | OtherError.
+Inductive exn := TraitError | AttributeError | DelegationError | RecursionError | KeyError | OtherError.
 Inductive res (A : Type) := Ok (a : A) | Raise (e : exn).
 Arguments Ok {A} a.
 Arguments Raise {A} e.
@@ -78,7 +79,7 @@ Fixpoint update {A} (i : nat) (f : A -> A) (l : list A) : list A :=
   | x :: r, S i' => x :: update i' f r
   end.
 
-Definition dummy_cls : cls := mkC [] [].
+Definition dummy_cls : cls := mkC [] [] [].
 Definition dummy_obj : obj := mkO 0 [].
 Definition get_obj (st : state) (o : oid) : obj := nth o (objs st) dummy_obj.
 Definition cls_of (st : state) (o : oid) : cls := nth (o_cls (get_obj st o)) (classes st) dummy_cls.
@@ -88,6 +89,9 @@ Definition dict_set (st : state) (o : oid) (n : name) (v : value) : state :=
   mkS (classes st) (update o (fun ob => mkO (o_cls ob) (nset n v (o_dict ob))) (objs st)) (ltab st).
 Definition dict_del (st : state) (o : oid) (n : name) : state :=
   mkS (classes st) (update o (fun ob => mkO (o_cls ob) (ndel n (o_dict ob))) (objs st)) (ltab st).
+
+Definition unlisted (n : name) (c : cls) : bool := existsb (name_eqb n) (c_unlisten c).
+Definition listenable (st : state) (o : oid) (n : name) : bool := negb (unlisted n (cls_of st o)).
 
 Definition has_node (x : node) (l : list node) : bool := existsb (node_eqb x) l.
 Definition ltab_add (st : state) (x : node) : state :=
@@ -254,20 +258,39 @@ Definition del_attr (st : state) (o : oid) (n : name) : state * outcome * list e
       match walk 100 st o o d r n with
       | Raise e => (st, Raised e, [])
       | Ok (_, _, t) =>
-          match dict_get st o n with
-          | None => match t with
-                    | PyAttr => (st, Raised AttributeError, [])  (* setattr_python: nothing to delete *)
-                    | _ => (ltab_add st (o, n), Done, [])
-                    end
-          | Some old =>
-              let st1 := dict_del st o n in
-              let evs := match t, rd st1 o n with
-                         | PyAttr, _ => []                      (* setattr_python: no notification *)
-                         | _, Ok new => if value_eqb old new then [] else change_at notify_fuel st1 (o, n) new
-                         | _, Raise _ => []
-                         end in
-              (ltab_add st1 (o, n), Done, evs)                 (* _remove_trait_delegate_listener(name, 0) *)
-          end
+          if listenable st o n then
+            match dict_get st o n with
+            | None => match t with
+                      | PyAttr => (st, Raised AttributeError, [])  (* setattr_python: nothing to delete *)
+                      | _ => (ltab_add st (o, n), Done, [])
+                      end
+            | Some old =>
+                let st1 := dict_del st o n in
+                let evs := match t, rd st1 o n with
+                           | PyAttr, _ => []                      (* setattr_python: no notification *)
+                           | _, Ok new => if value_eqb old new then [] else change_at notify_fuel st1 (o, n) new
+                           | _, Raise _ => []
+                           end in
+                (ltab_add st1 (o, n), Done, evs)                 (* _remove_trait_delegate_listener(name, 0) *)
+            end
+          else
+            (* listenable=False: the class has no __listener_traits__ entry for the name, so
+               _remove_trait_delegate_listener(name, 0) raises KeyError (l.3404) AFTER the local value
+               was deleted and the change notified *)
+            match dict_get st o n with
+            | None => match t with
+                      | PyAttr => (st, Raised AttributeError, [])
+                      | _ => (st, Raised KeyError, [])
+                      end
+            | Some old =>
+                let st1 := dict_del st o n in
+                let evs := match t, rd st1 o n with
+                           | PyAttr, _ => []
+                           | _, Ok new => if value_eqb old new then [] else change_at notify_fuel st1 (o, n) new
+                           | _, Raise _ => []
+                           end in
+                (st1, Raised KeyError, evs)
+            end
       end
   | _ => (st, Raised OtherError, [])                           (* not part of the quantified histories *)
   end.
@@ -315,7 +338,10 @@ Fixpoint run (st : state) (ops : list op) : list (op * obs) :=
 
 (* object creation: _init_trait_listeners attaches the forwarder of every deferring trait *)
 Definition init_ltab (cs : list cls) (os : list obj) : list node :=
-  flat_map (fun o => flat_map (fun nt => match snd nt with Deleg _ _ _ => [(o, fst nt)] | _ => [] end)
-                              (c_traits (nth (o_cls (nth o os dummy_obj)) cs dummy_cls)))
+  flat_map (fun o => let c := nth (o_cls (nth o os dummy_obj)) cs dummy_cls in
+                     flat_map (fun nt => match snd nt with
+                                         | Deleg _ _ _ => if unlisted (fst nt) c then [] else [(o, fst nt)]
+                                         | _ => [] end)
+                              (c_traits c))
            (seq 0 (length os)).
 Definition init_state (cs : list cls) (os : list obj) : state := mkS cs os (init_ltab cs os).
